@@ -510,7 +510,11 @@ func (s *Service) ServeBytes(req *http.Request, contentType string, body []byte)
 		for _, e := range evs {
 			e.Fault = fault.Kind
 		}
-		resp, err := applyFault(req, fault, resps, isArray)
+		okStatus := 200
+		if s.OKStatus != 0 {
+			okStatus = s.OKStatus
+		}
+		resp, err := applyFault(req, fault, resps, isArray, okStatus)
 		if resp != nil && resp.Body != nil {
 			b, _ := io.ReadAll(resp.Body)
 			s.Log.addSent(b)
@@ -560,7 +564,7 @@ func IsFailureSignal(kind string) bool {
 
 const Sentinel = "☠SENTINEL"
 
-func applyFault(req *http.Request, f *Fault, resps []map[string]any, isArray bool) (*http.Response, error) {
+func applyFault(req *http.Request, f *Fault, resps []map[string]any, isArray bool, okStatus int) (*http.Response, error) {
 	sel := func(i int) bool { return f.Pos < 0 || f.Pos == i || (f.Pos >= len(resps) && i == len(resps)-1) }
 	switch f.Kind {
 	case "transport-error":
@@ -622,7 +626,8 @@ func applyFault(req *http.Request, f *Fault, resps []map[string]any, isArray boo
 	} else {
 		out = []byte("null")
 	}
-	return jsonResp(req, 200, out), nil
+	// a well-formed GraphQL answer (with or without errors) under the service's usual 2xx status
+	return jsonResp(req, okStatus, out), nil
 }
 
 func corruptElem(f *Fault, r map[string]any) map[string]any {
